@@ -99,6 +99,7 @@ def units(tier):
     from props import c11_mix as MX
     from props.common import wrap as _wrap
     _wrap(us, "C11.init_mix.partition_of_unity_and_stability_bookkeeping", MX.unit_init_mix)
+    _wrap(us, "C11.read_transport.defaults_cover_every_cell", MX.unit_transport_defaults)
     from props import c11_mcd as MC
     _wrap(us, "C11.multi_D.moles_move_under_the_same_element", MC.unit_mcd_bookkeeping)
     _wrap(us, "C11.fill_m_s.giving_and_receiving_totals_get_the_same_multiple", MC.unit_fill_m_s_symmetry)
